@@ -88,7 +88,24 @@ def execute(engine, plan) -> Outcome:
             out.harness_error = traceback.format_exc()
     finally:
         shutil.rmtree(scratch, ignore_errors=True)
+        # a run may have asked for a temporary directory on another file system (see other_fs_tmpdir)
+        shutil.rmtree(other_fs_tmpdir(scratch, create=False), ignore_errors=True)
     return out
+
+
+def other_fs_tmpdir(scratch, create=True):
+    """A directory for TMPDIR on another file system than the scratch root (tmpfs), named after the run's scratch root so
+    that the parent can remove it whatever happens to the lifetime.  Returns None where there is no such file system."""
+    path = os.path.join('/dev/shm', 'emsverif-tmp-' + os.path.basename(scratch.rstrip('/')))
+    if not create:
+        return path
+    try:
+        if not os.path.isdir('/dev/shm') or os.stat('/dev/shm').st_dev == os.stat(scratch).st_dev:
+            return None
+        os.makedirs(path, exist_ok=True)
+        return path
+    except OSError:
+        return None
 
 
 # ----------------------------------------------------------------------------------------
@@ -326,7 +343,7 @@ def _sweep_stale_scratch(max_age_s=6 * 3600):
     """Scratch roots are removed after every run; a killed check can leave some behind.  Remove old ones."""
     root = pathlib.Path(tempfile.gettempdir())
     now = time.time()
-    for d in root.glob('emsverif-*'):
+    for d in list(root.glob('emsverif-*')) + list(pathlib.Path('/dev/shm').glob('emsverif-*')):
         try:
             if now - d.stat().st_mtime > max_age_s:
                 shutil.rmtree(d, ignore_errors=True)
